@@ -321,6 +321,8 @@ func symConvInt(ex *Exec, tDst, tSrc types.Type, x *Term) value {
 	return fromTerm(tDst, r)
 }
 
+var addTok = token.ADD
+
 func termByte(b *Term) value {
 	if b.IsConst() {
 		return uint8(b.val)
